@@ -400,6 +400,10 @@ class Builder:
             from .ext import Reverse
 
             return Reverse().apply(t)
+        if op == "alt":
+            from .ext import Alternate
+
+            return Alternate().apply(t)
         if op == "mark":
             from .ext import Tagged
 
